@@ -140,6 +140,7 @@ func VerifH_pick() {
 	res, err := p.Pick(balancer.PickInfo{FullMethodName: c.method, Ctx: c.ctx})
 	verifReach("after pick")
 	post := w.snap()
+	verifPickersUnchanged(pre, post)
 	verifAssert(verifLocksFree(), "C06: Pick left a lock held")
 	on, delta := w.placedOn(pre, post)
 
